@@ -15,10 +15,11 @@ import (
 
 type C16Case struct {
 	Script
-	State   string `json:"state"`   // waiting | logged | afterlogout
-	Type    string `json:"type"`    // MsgType of the invalid message
-	Damage  string `json:"damage"`  // checksum | bodylength | field | seqtext | seqtext+checksum | noseq+checksum | noseq+bodylength | state
-	BadStep int    `json:"badstep"` // index of the invalid message in Steps
+	State      string `json:"state"`                 // waiting | logged | afterlogout
+	Type       string `json:"type"`                  // MsgType of the invalid message
+	Damage     string `json:"damage"`                // checksum | bodylength | field | seqtext | seqtext+checksum | noseq+checksum | noseq+bodylength | state
+	BadStep    int    `json:"badstep"`               // index of the invalid message in Steps
+	ResendStep int    `json:"resend_step,omitempty"` // index of a later ResendRequest 1..0 (0: none)
 }
 
 var c16Types = []string{rig.TLogon, rig.TLogout, rig.THeartbeat, rig.TTestRequest, rig.TResendRequest}
@@ -127,6 +128,11 @@ func genC16(t *rapid.T) *C16Case {
 	// valid traffic that follows
 	if loggedOn {
 		add(rig.Step{Op: "in", In: g.testRequest("after")})
+		if rapid.Bool().Draw(t, "resendAll") {
+			// valid traffic that follows includes a ResendRequest for everything sent so far: the Reject is part of it
+			c.ResendStep = len(c.Steps)
+			add(rig.Step{Op: "in", In: g.resend(1, 0)})
+		}
 		filler(rapid.IntRange(0, 2).Draw(t, "suffix"))
 	} else {
 		add(rig.Step{Op: "in", In: g.goodLogon(g.hb)})
@@ -149,12 +155,16 @@ func checkC16(c *C16Case, rec *evid.Rec) (vs []pbt.Violation) {
 	key := func(what string) string { return what + ":" + c.Type + ":" + c.Damage + ":" + c.State }
 	loggedBefore := tr.Setup.Logged
 	followedUp := false
+	rejectSeq := 0
 	for i := range c.Steps {
 		res := tr.Steps[i]
 		fresh, _ := ff.apply(res)
 		st := &c.Steps[i]
 		switch {
 		case i == c.BadStep:
+			if len(fresh) == 1 && fresh[0].Type == rig.TReject {
+				rejectSeq = atoi(fresh[0].Seq)
+			}
 			for _, v := range expectReject(i, st.In, fresh, nil, res) {
 				v.Key = key(v.Key)
 				vs = append(vs, v)
@@ -167,6 +177,17 @@ func checkC16(c *C16Case, rec *evid.Rec) (vs []pbt.Violation) {
 			}
 			if res.CtxDone || res.RunEnded {
 				vs = append(vs, pbt.V(key("session-stopped"), "the invalid %s (%s) stopped the session (ctxDone=%v runEnded=%v runErr=%q)", c.Type, c.Damage, res.CtxDone, res.RunEnded, tr.RunErr))
+			}
+		case c.ResendStep > 0 && i == c.ResendStep && res.Delivered && rejectSeq > 0:
+			found := false
+			for _, o := range res.Out {
+				if o.Type == rig.TReject && atoi(o.Seq) == rejectSeq {
+					found = true
+				}
+			}
+			rec.Hist("followed-by-resend-of-everything")
+			if !found {
+				vs = append(vs, pbt.V(key("reject-not-resent"), "a valid ResendRequest 1..0 after the invalid %s (%s) is not processed normally: the Reject sent under number %d is not retransmitted:%s", c.Type, c.Damage, rejectSeq, showOut(res)))
 			}
 		case i == c.BadStep+1:
 			// normal treatment of the next valid message
